@@ -33,8 +33,8 @@ def obligations(tier, seed):
                     pre.append(('A == %r and B == %r' % ('a' * L, 'b' * L)) if tier == 'quick' else ('B == %r' % ('b' * L)))
                     if tier == 'quick' and skeletons.HOIST_TEMPLATES[k][0] == 'one_true_float':
                         pre.append('C == %r' % ('c' * L))     # 28 literals of 6 hoistable values: concrete names in the quick tier     # many hoisted values: pin two holes in the quick tier
-                if tier == 'quick' and name_k.startswith('folded_'):
-                    pre.append('C == %r' % ('c' * L))     # the free name is irrelevant to folding + hoisting: pinned in the quick tier
+                if name_k.startswith('folded_'):
+                    pre.append('C == %r' % ('c' * L))     # the free name is irrelevant to folding + hoisting: pinned
                 shards.append(pre)
     return [
         dict(name='C06.hoist_ok', fn='hoist_ok', shards=shards, timeout=t, bounds='see META', public_replay='public_hoist_ok'),
